@@ -275,6 +275,10 @@ __get_bdays(unsigned int y, unsigned int m)
  */
 	unsigned int md = __get_mdays(y, m);
 
+	if (UNLIKELY(!md)) {
+		/* no such month */
+		return 0U;
+	}
 	/* rd should not overflow */
 	assert((signed int)md - 28 >= 0);
 	
@@ -349,6 +353,10 @@ __bizda_get_mday(dt_bizda_t that)
 		unsigned int b = that.bd;
 		unsigned int magic = (b - 1 + wd01 - 1);
 
+		if (UNLIKELY(!b || !res)) {
+			/* no 0th business day, and no such month */
+			return 0U;
+		}
 		assert(b + wd01 >= 2);
 		wk = magic / DUWW_BDAYS_P_WEEK;
 		nd = magic % DUWW_BDAYS_P_WEEK;
